@@ -15,3 +15,4 @@ p.current_price = 110.0
 limit.execute()
 print('after the limit fill: assets', e.assets, 'position qty', p.qty, p.type)
 # expected: BTC 0.0 and position qty 0.0 (position size = base balance, never short); got position qty -1.0 'short'
+# (repaired in /repo by commit 56a745c9 = fixes/C04-spot-oversize-sell-flips-short.diff; on the repaired tree this script shows the expected behaviour)
